@@ -89,9 +89,19 @@ def main(p):
         f1, f2 = p["factors"]
         method = p["method"]
         x = rng.integers(0, 100, (d1, d2)).astype(np.float64)
+        if p.get("dtype") == "uint8":
+            x = (np.array(p["data"], dtype=np.uint8) if p.get("data") else rng.integers(150, 256, (d1, d2)).astype(np.uint8))
         op = np.mean if method == "mean" else np.median
-        want = op(x[:(d1 // f1) * f1, :(d2 // f2) * f2].reshape(d1 // f1, f1, d2 // f2, f2), axis=(1, 3))
-        if p["which"] == "ds2dflat":
+        want = op(x[:(d1 // f1) * f1, :(d2 // f2) * f2].astype(np.float64).reshape(d1 // f1, f1, d2 // f2, f2), axis=(1, 3))
+        if p["which"] == "block":
+            from sigpyproc.block import FilterbankBlock
+            from sigpyproc.header import Header
+            import tempfile
+            from .sigfile import write_set
+            with tempfile.TemporaryDirectory() as d:
+                hdr = Header.from_sigproc(write_set(d, np.zeros((d2, d1), np.uint8), 8, [d2]))
+            got = np.asarray(FilterbankBlock(x, hdr.new_header({"nsamples": d2, "nchans": d1})).downsample(tfactor=f2, ffactor=f1, filter_method=method).data)
+        elif p["which"] == "ds2dflat":
             got = stats.downsample_2d_flat(x.ravel(), f1, f2, d1, d2, method).reshape(d1 // f1, d2 // f2)
         else:
             got = stats.downsample_2d(x, (f1, f2), method)
